@@ -194,7 +194,7 @@ CLAIM = {
     "text": "Decides the bookkeeping that makes seq_num / num_events exact: rewind keeps the live counters of streams whose events are never "
             "replayed and each such emitter registers its stream (def-use between the registering sites and the restore); numbering always "
             "comes from the run's single shared counter dict (no explicit seq_num, dict never rebound, streams start at 1); collect advances "
-            "by exactly the declared index width and stream-datum seq_nums are derived from the same counter. Gaplessness under arbitrary "
+            "by exactly the declared index width and stream-datum seq_nums are derived from the same counter; the checkpoint reset that snapshots the counters is skipped only when no checkpoint is in effect. Gaplessness under arbitrary "
             "device behaviour is not decided.",
     "technique": "def-use / provenance between emitter sites and the rewind restore; ownership; reaching definitions; sibling agreement of the two collect branches",
 }
